@@ -95,6 +95,11 @@ impl<T> Mutex<T> {
             Err(p) => p.into_inner(),
         };
         let g = self.wrap(g);
+        // a thread can lose the processor right after it got the lock: without a
+        // scheduling point *inside* the critical section nobody would ever see the lock
+        // held (a `try_lock` elsewhere could not fail, a reader of data the holder is
+        // about to change could not run in between)
+        crate::sched_point("mutex_acquired");
         if self.sh.poisoned.load(Ordering::SeqCst) {
             Err(PoisonError::new(g))
         } else {
